@@ -2759,6 +2759,16 @@ fn hostile_addr(r: &mut Rng, b: &Built) -> u64 {
     }
 }
 
+/// The region of "h:dynamic-without-end": readable memory without a terminating dynamic entry. Its
+/// length bounds the work a hostile size field can legitimately ask for (a program header that declares
+/// a 2 GiB dynamic segment there is read for as many bytes as are readable), so it is chosen as small as
+/// the purpose allows: with 16-byte entries read one by one, a walk that lost its entry limit makes
+/// 2^24 reads here - beyond every call budget a C02 scenario runs with (2 * 10^6, 12 * 10^6 with
+/// "h:link-map") - while the largest legitimate transfer stays at 256 MiB instead of 2 GiB, which took a
+/// worker past its CPU-time watchdog on a machine whose memory was slow to fault in (DESIGN 8.4).
+const VAST_START: u64 = 0x6900_0000_0000;
+const VAST_LEN: u64 = 256 << 20;
+
 fn gen_c02(r: &mut Rng, seed: u64) -> Scenario {
     let (mut sc, _) = rich_dump(r, "C02", seed, "c02-hostile", true);
     // rebuild a Built-like view for helpers
@@ -3044,8 +3054,8 @@ fn gen_c02(r: &mut Rng, seed: u64) -> Scenario {
                         }
                     }
                 }
-                let start = 0x6900_0000_0000u64;
-                let len: u64 = 64 << 30;
+                let start = VAST_START;
+                let len: u64 = VAST_LEN;
                 if let Some(o) = ph_dyn {
                     if !sc.world.regions.iter().any(|g| g.start < start + (64 << 30) && start < g.end()) {
                         sc.world.regions.push(RegionSpec { start, len, perms: "rw-p".into(), offset: 0, inode: 0, name: B(Vec::new()), deleted: false, content: Content::Pattern(r.next()) });
@@ -3085,10 +3095,10 @@ fn gen_c02(r: &mut Rng, seed: u64) -> Scenario {
     }
     // When every remote read is forced through PTRACE_PEEKDATA, one word per call, a segment that a
     // hostile header field declares gigabytes long and that lies in the vast region of "h:dynamic-without-end"
-    // is read for hundreds of millions of calls: bounded by the memory that is there, but far beyond what
-    // a run's call budget can tell from a loop. The vast region is kept for the other read strategies.
+    // is read for tens of millions of calls: bounded by the memory that is there, but far beyond what
+    // a run's call budget can tell from a loop. The region keeps VAST_LEN for the other read strategies.
     if tags.iter().any(|t| t == "reader:peekdata") {
-        if let Some(g) = sc.world.regions.iter_mut().find(|g| g.start == 0x6900_0000_0000 && g.len == 64 << 30) {
+        if let Some(g) = sc.world.regions.iter_mut().find(|g| g.start == VAST_START && g.len == VAST_LEN) {
             g.len = 1 << 20;
         }
     }
